@@ -1,25 +1,13 @@
 (* C15: the record loop of execActions under a cancelled context.
 
-   The loop `for { line, err := p.nextLine() ... }` does not poll the context itself; it is
-   polled only through the opcodes its rules execute.  If the first rule executes at least one
-   instruction per record (it has a pattern, or a body that compiled to at least one opcode),
-   every record advances the shared counter and the loop returns within the instruction budget,
-   however long the input is ([exec_actions_returns]).  A rule without pattern whose body
-   compiled to no opcode at all (`{ {} }`), or no rule at all (END-only programs), executes
-   nothing per record: the loop consumes the whole input after cancellation (refuted in
-   Properties/C15.v on an endless input). *)
+   The loop `for { if p.checkCtx { p.checkContext() } line, err := p.nextLine() ... }` polls the
+   shared counter once per record, exactly as the dispatch loop does once per instruction: a
+   record is one more step of the counter.  Every iteration therefore advances the clock, and
+   under a cancelled context the loop returns within the step budget whatever the rules are
+   (none at all, or a body that compiled to no opcode) and however long the input is
+   ([exec_actions_returns]); so does ExecuteContext as a whole ([execute_all_returns]). *)
 From Verif Require Import Lib.Base Model.Ast Model.Instr Model.Compiler Model.Prims Model.VM Model.Cancel
   Proofs.CodeAt Proofs.VMLemmas Proofs.Cancel Proofs.CancelPrompt Proofs.CancelProgram Gen.Consts.
-
-(* the first pattern-action block executes at least one instruction for every record *)
-Definition first_rule_dispatches (acts : list (list code * option code)) : Prop :=
-  match acts with
-  | [] => False
-  | ([], Some (_ :: _)) :: _ => True
-  | ([p0], _) :: _ => 0 < csize p0
-  | ([p0; p1], _) :: _ => 0 < csize p0 /\ 0 < csize p1
-  | _ => False
-  end.
 
 Section CancelRecords.
   Variables value St err : Type.
@@ -42,55 +30,6 @@ Section CancelRecords.
   (* budget left *)
   Definition left (t : Z) (cs : cstate) : Z := t + checkContextOps - 1 - clock cs.
 
-  Definition is_ctx (x : cres) : Prop := exists m, x = CCtx m.
-
-  (* one execute call on non-empty code: it stops with the context error, or an instruction was executed *)
-  Lemma run_ctx_progress k C stk m cs x cs' :
-    Inv cs -> 0 < csize C -> run_ctx k C 0 stk m cs = (x, cs') ->
-    x = CRes VFuel \/ is_ctx x \/ clock cs + 1 <= clock cs'.
-  Proof.
-    intros HI Hc H. destruct k as [|k]; [cbn in H; inversion H; left; reflexivity|].
-    rewrite run_ctx_S in H.
-    destruct (csize C <=? 0) eqn:E; [apply Z.leb_le in E; lia|].
-    destruct (poll cs) as [stop cs1] eqn:Ep. pose proof (poll_inv _ _ _ HI Ep) as Hp.
-    destruct stop; [inversion H; subst; right; left; eexists; reflexivity|].
-    destruct Hp as (HI2 & _ & Hclk). right. right.
-    (* whatever the rest of the run does, the clock does not go back *)
-    assert (Hrest : run_ctx (S k) C 0 stk m cs = (x, cs')).
-    { rewrite run_ctx_S, E, Ep. exact H. }
-    clear Hrest. cbv zeta in H.
-    assert (Hmono : forall cs3, ext (tick cs1) cs3 -> clock cs + 1 <= clock cs3).
-    { intros cs3 (Hc3 & _). lia. }
-    remember (tick cs1) as cs2 eqn:Ecs2. clear Ecs2 Hclk Ep.
-    (* re-run the tail as one run_ctx-like computation: use the invariant lemma on each branch *)
-    destruct (step P F C 0 stk m) as [ip' stk' m'|r0|vsc vi keys body ipa stk0 m0|fn m1 saved ipa stk0].
-    - destruct (latch_inv value St cancel_req cs2 m' HI2) as (HI3 & He3).
-      destruct (rci _ _ _ _ _ _ _ _ HI3 H) as (_ & He). apply Hmono. eapply ext_trans; eassumption.
-    - destruct (latch_res_inv value St err cancel_req cs2 r0 HI2) as (HI3 & He3). inversion H; subst.
-      apply Hmono. exact He3.
-    - apply Hmono. clear Hmono stk m. revert stk0 m0 cs2 HI2 H.
-      induction keys as [|key ks IHk]; intros stk0 m0 cs2 HI2 H.
-      + destruct (rci _ _ _ _ _ _ _ _ HI2 H) as (_ & He). exact He.
-      + destruct (var_write P m0 vsc vi key) as [m1|e m1|]; try (inversion H; subst; apply ext_refl).
-        destruct (run_ctx k body 0 stk0 m1 cs2) as [xb csb] eqn:Eb.
-        destruct (rci _ _ _ _ _ _ _ _ HI2 Eb) as (Hgb & Heb).
-        destruct xb as [rb|mb]; [|inversion H; subst; exact Heb].
-        cbn [CancelPrompt.good] in Hgb.
-        destruct rb as [stk' m2|v stk' m2|stk' m2|x0 m2| |]; try (inversion H; subst; exact Heb).
-        * eapply ext_trans; [exact Heb|]. eapply IHk; eassumption.
-        * destruct (rci _ _ _ _ _ _ _ _ Hgb H) as (_ & He). eapply ext_trans; eassumption.
-    - apply Hmono. cbv zeta in H.
-      destruct (run_ctx k (cf_body fn) 0 stk0 m1 cs2) as [xb csb] eqn:Eb.
-      destruct (rci _ _ _ _ _ _ _ _ HI2 Eb) as (Hgb & Heb).
-      destruct xb as [rb|mb]; [|inversion H; subst; exact Heb].
-      cbn [CancelPrompt.good] in Hgb.
-      destruct rb as [stk' m2|v stk' m2|stk' m2|x0 m2| |]; try (inversion H; subst; exact Heb).
-      + destruct (pop_n (Z.to_nat (cf_nscalars fn)) stk' []) as [[a t0]|]; [|inversion H; subst; exact Heb].
-        destruct (rci _ _ _ _ _ _ _ _ Hgb H) as (_ & He). eapply ext_trans; eassumption.
-      + destruct (pop_n (Z.to_nat (cf_nscalars fn)) stk' []) as [[a t0]|]; [|inversion H; subst; exact Heb].
-        destruct (rci _ _ _ _ _ _ _ _ Hgb H) as (_ & He). eapply ext_trans; eassumption.
-  Qed.
-
   (* ---- no layer runs out of fuel under a cancelled context ---- *)
 
   Definition pstop (o : pout value St err) : option cres := match o with POk _ _ _ => None | PStop r => Some r end.
@@ -106,20 +45,6 @@ Section CancelRecords.
     pose proof (rcr _ _ _ _ _ _ _ _ _ HI Hd Hf E) as Hn.
     destruct x as [r|mb]; [destruct r as [stk' m'|v stk' m'|stk' m'|x0 m'| |]; [destruct stk'|..]|];
       inversion H; subst; cbn [pstop]; try discriminate; congruence.
-  Qed.
-
-  Lemma eval_pattern_progress f pat stk m cs o cs' :
-    Inv cs -> 0 < csize pat -> eval_pattern f pat stk m cs = (o, cs') ->
-    pstop o = Some (CRes VFuel) \/ (exists r, pstop o = Some r /\ is_ctx r) \/ clock cs + 1 <= clock cs'.
-  Proof.
-    intros HI Hc H. unfold Cancel.eval_pattern in H.
-    destruct (run_ctx f pat 0 stk m cs) as [x csb] eqn:E.
-    destruct (run_ctx_progress _ _ _ _ _ _ _ HI Hc E) as [Hx|[(mm & Hx)|Hx]]; subst.
-    - inversion H; subst. left. reflexivity.
-    - inversion H; subst. right. left. eexists; split; [reflexivity|eexists; reflexivity].
-    - right. right.
-      destruct x as [r|mb]; [destruct r as [stk' m'|v stk' m'|stk' m'|x0 m'| |]; [destruct stk'|..]|];
-        inversion H; subst; exact Hx.
   Qed.
 
   Lemma match_pattern_returns f pats ir stk m cs t o cs' :
@@ -193,117 +118,31 @@ Section CancelRecords.
       + destruct x0; inversion H; subst; cbn [lstop]; congruence.
   Qed.
 
-  (* under the guard a record that does not stop the loop has advanced the clock *)
-  Lemma run_rules_progress f acts inr stk m cs o inr' cs' :
-    first_rule_dispatches acts -> Inv cs ->
-    run_rules f acts inr stk m cs = (o, inr', cs') ->
-    (exists r, lstop o = Some r) \/ clock cs + 1 <= clock cs'.
-  Proof.
-    intros Hg HI H. destruct acts as [|[pats body] rest]; [contradiction|].
-    cbn [Cancel.run_rules] in H.
-    destruct inr as [|ir inr0]; [inversion H; subst; left; eexists; reflexivity|].
-    destruct (match_pattern f pats ir stk m cs) as [om cs1] eqn:Em.
-    destruct (match_pattern_inv value St err P F cancel_req _ _ _ _ _ _ _ _ HI Em) as (Hg1 & He1).
-    destruct om as [matched ir' stk1 m1|r]; [|inversion H; subst; left; eexists; reflexivity].
-    cbn [goodm] in Hg1.
-    (* the rest of the record never turns the clock back *)
-    assert (Htail : forall c, clock cs + 1 <= clock c -> ext c cs' -> clock cs + 1 <= clock cs').
-    { intros c Hc (Hc2 & _). lia. }
-    assert (Hrest : ext cs1 cs' \/ exists r, lstop o = Some r).
-    { assert (Hgo : forall stk2 m2 cs2 o2 inr2 cs3, Inv cs2 ->
-                (let '(o, inr'', cs3) := run_rules f rest inr0 stk2 m2 cs2 in (o, ir' :: inr'', cs3)) = (o2, inr2, cs3) ->
-                ext cs2 cs3).
-      { intros stk2 m2 cs2 o2 inr2 cs3 HI2 E.
-        destruct (run_rules f rest inr0 stk2 m2 cs2) as [[o3 inr3] cs4] eqn:Er. inversion E; subst.
-        destruct (run_rules_inv value St err P F cancel_req IO f _ _ _ _ _ _ _ _ HI2 Er) as (_ & He). exact He. }
-      destruct matched; [|left; eapply Hgo; eassumption].
-      assert (Hprint : forall o2 inr2 cs3,
-                match io_print_line IO (ms m1) with
-                | (s, EOk _) => let '(o, inr'', cs3) := run_rules f rest inr0 stk1 (with_ms m1 s) cs1 in (o, ir' :: inr'', cs3)
-                | (s, EErr e) => (LStop (CRes (VAbort (XError e) (with_ms m1 s))), ir' :: inr0, cs1)
-                end = (o2, inr2, cs3) -> ext cs1 cs3).
-      { intros o2 inr2 cs3 E. destruct (io_print_line IO (ms m1)) as [s [u|e]].
-        - eapply Hgo; eassumption.
-        - inversion E; subst. apply ext_refl. }
-      destruct body as [[|i b]|]; [left; eapply Hprint; exact H| |left; eapply Hprint; exact H].
-      destruct (run_ctx f (i :: b) 0 stk1 m1 cs1) as [x cs2] eqn:Eb.
-      destruct (rci _ _ _ _ _ _ _ _ Hg1 Eb) as (Hg2 & He2).
-      destruct x as [r|mb]; [|inversion H; subst; left; exact He2].
-      cbn [CancelPrompt.good] in Hg2.
-      destruct r as [stk2 m2|v stk2 m2|stk2 m2|x0 m2| |]; try (inversion H; subst; left; exact He2).
-      - left. eapply ext_trans; [exact He2|]. eapply Hgo; eassumption.
-      - destruct x0; inversion H; subst; left; exact He2. }
-    destruct Hrest as [Hrest|Hrest]; [|left; exact Hrest].
-    (* where the first instruction of the record is executed *)
-    unfold first_rule_dispatches in Hg.
-    destruct pats as [|p0 [|p1 [|p2 ps]]].
-    - (* no pattern: the body has opcodes *)
-      destruct body as [[|i b]|]; try contradiction.
-      unfold Cancel.match_pattern in Em. inversion Em; subst. clear Em.
-      destruct (run_ctx f (i :: b) 0 stk1 m1 cs1) as [x cs2] eqn:Eb.
-      assert (Hc : 0 < csize (i :: b)).
-      { rewrite csize_cons. pose proof (isize_pos i). pose proof (csize_nonneg b). lia. }
-      destruct (run_ctx_progress _ _ _ _ _ _ _ HI Hc Eb) as [Hx|[(mm & Hx)|Hx]]; subst.
-      + inversion H; subst. left. eexists; reflexivity.
-      + inversion H; subst. left. eexists; reflexivity.
-      + destruct (rci _ _ _ _ _ _ _ _ HI Eb) as (Hg2 & He2).
-        destruct x as [r|mb]; [|inversion H; subst; left; eexists; reflexivity].
-        cbn [CancelPrompt.good] in Hg2.
-        destruct r as [stk2 m2|v stk2 m2|stk2 m2|x0 m2| |];
-          try (inversion H; subst; left; eexists; reflexivity).
-        * right. destruct (run_rules f rest inr0 stk2 m2 cs2) as [[o3 inr3] cs4] eqn:Er. inversion H; subst.
-          destruct (run_rules_inv value St err P F cancel_req IO f _ _ _ _ _ _ _ _ Hg2 Er) as (_ & (Hc4 & _)). lia.
-        * destruct x0; inversion H; subst; try (left; eexists; reflexivity); right; exact Hx.
-    - (* one pattern *)
-      unfold Cancel.match_pattern in Em.
-      destruct (eval_pattern f p0 stk m cs) as [o0 cs0] eqn:E0.
-      destruct (eval_pattern_progress _ _ _ _ _ _ _ HI Hg E0) as [Hx|[(r & Hx & _)|Hx]].
-      + destruct o0; [discriminate Hx|]. inversion Em.
-      + destruct o0; [discriminate Hx|]. inversion Em.
-      + destruct o0; inversion Em; subst. right. destruct Hrest as (Hc & _). lia.
-    - (* range pattern *)
-      destruct Hg as (Hc0 & Hc1). unfold Cancel.match_pattern in Em.
-      destruct ir.
-      + destruct (eval_pattern f p1 stk m cs) as [o1 cs01] eqn:E1.
-        destruct (eval_pattern_progress _ _ _ _ _ _ _ HI Hc1 E1) as [Hx|[(r & Hx & _)|Hx]].
-        * destruct o1; [discriminate Hx|]. inversion Em.
-        * destruct o1; [discriminate Hx|]. inversion Em.
-        * destruct o1; inversion Em; subst. right. destruct Hrest as (Hc & _). lia.
-      + destruct (eval_pattern f p0 stk m cs) as [o0 cs0] eqn:E0.
-        destruct (eval_pattern_progress _ _ _ _ _ _ _ HI Hc0 E0) as [Hx|[(r & Hx & _)|Hx]].
-        * destruct o0; [discriminate Hx|]. inversion Em.
-        * destruct o0; [discriminate Hx|]. inversion Em.
-        * destruct o0 as [b stk' m'|r]; [|inversion Em].
-          destruct b.
-          -- destruct (eval_pattern_inv value St err P F cancel_req _ _ _ _ _ _ _ HI E0) as (Hg0 & _). cbn [goodp] in Hg0.
-             destruct (eval_pattern f p1 stk' m' cs0) as [o1 cs01] eqn:E1.
-             destruct (eval_pattern_inv value St err P F cancel_req _ _ _ _ _ _ _ Hg0 E1) as (_ & (Hc01 & _)).
-             destruct o1; inversion Em; subst. right. destruct Hrest as (Hc & _). lia.
-          -- inversion Em; subst. right. destruct Hrest as (Hc & _). lia.
-    - contradiction.
-  Qed.
-
   Theorem exec_actions_returns f : forall n acts inr stk m cs t x cs',
-    first_rule_dispatches acts ->
     Inv cs -> done_at cs = Some t -> left t cs < Z.of_nat n -> left t cs < Z.of_nat f ->
     exec_actions n f acts inr stk m cs = (x, cs') -> x <> CRes VFuel.
   Proof.
-    induction n as [|n IH]; intros acts inr stk m cs t x cs' Hg HI Hd Hn Hf H.
+    induction n as [|n IH]; intros acts inr stk m cs t x cs' HI Hd Hn Hf H.
     - pose proof (Inv_Post _ HI t Hd). unfold left in Hn. cbn in Hn. lia.
     - cbn [Cancel.exec_actions] in H.
+      destruct (poll cs) as [stop cs0] eqn:Ep. pose proof (poll_inv _ _ _ HI Ep) as Hp.
+      destruct stop; [inversion H; subst; discriminate|].
+      destruct Hp as (HI2 & Hext2 & Hclk).
+      assert (Hd2 : done_at (tick cs0) = Some t) by (apply Hext2; exact Hd).
+      assert (Hn2 : left t (tick cs0) < Z.of_nat n) by (unfold left in *; lia).
+      assert (Hf2 : left t (tick cs0) < Z.of_nat f) by (unfold left in *; lia).
+      remember (tick cs0) as cs2 eqn:Ecs2. clear Ecs2 Ep Hclk Hext2 cs0.
       destruct (io_next_line IO (ms m)) as [s [[line|]|e]]; try (inversion H; subst; discriminate).
-      destruct (run_rules f acts inr stk (with_ms m (io_set_record IO s line)) cs) as [[o inr'] cs1] eqn:Er.
-      pose proof (run_rules_returns _ _ _ _ _ _ _ _ _ _ HI Hd Hf Er) as Hnr.
-      destruct (run_rules_inv value St err P F cancel_req IO f _ _ _ _ _ _ _ _ HI Er) as (Hg1 & He1).
-      destruct (run_rules_progress _ _ _ _ _ _ _ _ _ Hg HI Er) as [(r & Hr)|Hp].
-      + destruct o; try discriminate Hr. inversion H; subst. cbn [lstop] in Hnr. congruence.
-      + assert (Hd1 : done_at cs1 = Some t) by (apply He1; exact Hd).
-        assert (Hn1 : left t cs1 < Z.of_nat n) by (unfold left in *; lia).
-        assert (Hf1 : left t cs1 < Z.of_nat f) by (unfold left in *; lia).
-        destruct o as [stk' m'|stk' m'|r].
-        * eapply IH; eassumption.
-        * eapply IH; eassumption.
-        * inversion H; subst. cbn [lstop] in Hnr. congruence.
+      destruct (run_rules f acts inr stk (with_ms m (io_set_record IO s line)) cs2) as [[o inr'] cs1] eqn:Er.
+      pose proof (run_rules_returns _ _ _ _ _ _ _ _ _ _ HI2 Hd2 Hf2 Er) as Hnr.
+      destruct (run_rules_inv value St err P F cancel_req IO f _ _ _ _ _ _ _ _ HI2 Er) as (Hg1 & He1).
+      assert (Hd1 : done_at cs1 = Some t) by (apply He1; exact Hd2).
+      assert (Hn1 : left t cs1 < Z.of_nat n) by (destruct He1 as (Hc & _); unfold left in *; lia).
+      assert (Hf1 : left t cs1 < Z.of_nat f) by (destruct He1 as (Hc & _); unfold left in *; lia).
+      destruct o as [stk' m'|stk' m'|r].
+      + eapply IH; eassumption.
+      + eapply IH; eassumption.
+      + inversion H; subst. cbn [lstop] in Hnr. congruence.
   Qed.
 
   (* ---- the whole call ---- *)
@@ -317,15 +156,13 @@ Section CancelRecords.
       try discriminate; try reflexivity; destruct (ctx_now cs); inversion H.
   Qed.
 
-  (* ExecuteContext with a context cancelled at t returns (BEGIN, the record loop, END), provided
-     the record loop is polled: the first rule executes an instruction per record, or there is
-     no record loop at all (BEGIN-only program) *)
+  (* ExecuteContext with a context cancelled at t returns: BEGIN, the record loop and END all end
+     within the step budget (fuel is only the evaluator's recursion bound) *)
   Theorem execute_all_returns fuel cp m0 t x fin cs' :
-    first_rule_dispatches (c_actions cp) \/ (c_actions cp = [] /\ c_end cp = []) ->
     0 <= t -> t + checkContextOps - 1 < Z.of_nat fuel ->
     execute_all fuel cp m0 (cs_execute_context true (Some t)) = (x, fin, cs') -> x <> RFuel.
   Proof.
-    intros Hguard Ht Hfuel H Hx.
+    intros Ht Hfuel H Hx.
     assert (HI0 : Inv (cs_execute_context true (Some t))).
     { apply Inv_init. intros t' E. inversion E; subst. exact Ht. }
     assert (Hd0 : done_at (cs_execute_context true (Some t)) = Some t) by reflexivity.
@@ -349,31 +186,37 @@ Section CancelRecords.
       pose proof (rcr _ _ _ _ _ _ _ _ _ HIc Hdc Hlc Ee) as Hne.
       destruct (classify re cs3) eqn:Ec; inversion E; subst; try discriminate.
       apply Hne. eapply classify_fuel; [exact Ec|reflexivity]. }
-    assert (Hacts : forall stk m1, Inv cs1 ->
-              forall ra cs2, exec_actions fuel fuel (c_actions cp) (repeat false (length (c_actions cp))) stk m1 cs1 = (ra, cs2) ->
-              first_rule_dispatches (c_actions cp) ->
+    assert (Hacts : forall acts inr stk m1, Inv cs1 ->
+              forall ra cs2, exec_actions fuel fuel acts inr stk m1 cs1 = (ra, cs2) ->
               ra <> CRes VFuel /\ good ra cs2 /\ done_at cs2 = Some t /\ left t cs2 < Z.of_nat fuel).
-    { intros stk m1 HI1 ra cs2 Ex Hg.
-      pose proof (exec_actions_returns fuel fuel _ _ _ _ _ _ _ _ Hg HI1 Hd1 Hl1 Hl1 Ex) as Hna.
+    { intros acts inr stk m1 HI1 ra cs2 Ex.
+      pose proof (exec_actions_returns fuel fuel _ _ _ _ _ _ _ _ HI1 Hd1 Hl1 Hl1 Ex) as Hna.
       destruct (exec_actions_inv value St err P F cancel_req IO fuel _ _ _ _ _ _ _ _ HI1 Ex) as (Hga & Hea).
       repeat split; try assumption.
       - apply Hea. exact Hd1.
       - destruct Hea as (Hc & _). unfold left in *. lia. }
     destruct (classify rb cs1) as [stk m1|m1|r fin0] eqn:Ecb.
-    - destruct Hguard as [Hg|[Ha He]].
-      + destruct (c_actions cp) as [|a acts] eqn:Ea; [contradiction|].
-        destruct (exec_actions fuel fuel (a :: acts) (repeat false (length (a :: acts))) stk m1 cs1) as [ra cs2] eqn:Ex.
-        destruct (Hacts stk m1 Hcb ra cs2 Ex Hg) as (Hna & Hga & Hd2 & Hl2).
+    - destruct (c_actions cp) as [|a acts] eqn:Ea.
+      + destruct (c_end cp) as [|i e] eqn:Ee; [inversion H; subst; discriminate|].
+        cbn [length repeat] in H.
+        destruct (exec_actions fuel fuel [] [] stk m1 cs1) as [ra cs2] eqn:Ex.
+        destruct (Hacts _ _ stk m1 Hcb ra cs2 Ex) as (Hna & Hga & Hd2 & Hl2).
         pose proof (classify_ok value St err ra cs2 Hga) as Hca.
         destruct (classify ra cs2) eqn:Eca.
         * eapply Hend; eassumption.
         * eapply Hend; eassumption.
         * inversion H; subst. apply Hna. eapply classify_fuel; [exact Eca|reflexivity].
-      + rewrite Ha, He in H. inversion H; subst. discriminate.
-    - destruct Hguard as [Hg|[Ha He]].
-      + destruct (c_actions cp) as [|a acts] eqn:Ea; [contradiction|].
+      + destruct (exec_actions fuel fuel (a :: acts) (repeat false (length (a :: acts))) stk m1 cs1) as [ra cs2] eqn:Ex.
+        destruct (Hacts _ _ stk m1 Hcb ra cs2 Ex) as (Hna & Hga & Hd2 & Hl2).
+        pose proof (classify_ok value St err ra cs2 Hga) as Hca.
+        destruct (classify ra cs2) eqn:Eca.
+        * eapply Hend; eassumption.
+        * eapply Hend; eassumption.
+        * inversion H; subst. apply Hna. eapply classify_fuel; [exact Eca|reflexivity].
+    - destruct (c_actions cp) as [|a acts] eqn:Ea.
+      + destruct (c_end cp) as [|i e] eqn:Ee; [inversion H; subst; discriminate|].
         eapply Hend; eassumption.
-      + rewrite Ha, He in H. inversion H; subst. discriminate.
+      + eapply Hend; eassumption.
     - inversion H; subst. apply Hnb. eapply classify_fuel; [exact Ecb|reflexivity].
   Qed.
 
